@@ -230,7 +230,7 @@ def decidedBy (env : Env) (os : List DUOpt) (v : V) (dv : V) : Bool :=
 
 def acceptsDU (env : Env) (m : Mods) (disc : Nat) (os : List DUOpt) (v : V) : Bool :=
   wellFormedDU os &&
-    ((v.isNil && (m.optional || m.nilable)) ||
+    ((duNil v && (m.optional || m.nilable)) ||     -- nil, or (since /repo a69d756) a nil pointer
      (match v with
       | .map .str .any es =>
         (match lookupKey disc (es.getD []) with
@@ -245,7 +245,7 @@ def accepts (env : Env) (n : Node) (v : V) : Bool :=
   | .xor m opts => (v.isNilLike && nilOK m) || countAcc env opts v == 1
   | .inter m l r => (v.isNilLike && nilOK m)
       || (acc env l v && acc env r v && mergeable (mresVal (env l v)) (mresVal (env r v)))
-  | .du m disc dmap opts => (v.isNil && (m.optional || m.nilable))
+  | .du m disc dmap opts => (duNil v && (m.optional || m.nilable))
       || (match selectDU disc dmap v with
           | some (some t) => acc env t v
           | some none => opts.any (fun o => acc env o v)
